@@ -79,12 +79,14 @@ void gen_c18(Plan &p, Rng &r, bool thorough) {
       c.guard = (int)r.below(2);
       t.ops.push_back(c);
       if (r.coin()) {
-        int n = 1 + (int)r.below(3);
-        for (int k = 0; k < n; k++) {
+        // option state chosen once with the three canonical setters, as the isolated-line oracle does
+        int o = (int)r.below(12);
+        static const int which[3] = {lib::S_MOV_IMM, lib::S_SWAP, lib::S_NOBASE};
+        int vals[3] = {o / 4, (o / 2) & 1, o & 1};
+        for (int k = 0; k < 3; k++) {
           Op s = mk(OP_SETTER, 0);
-          s.which = (int)r.below(5);
-          static const int vals[] = {0, 1, 2, 0, 1, 2, 77};
-          s.value = vals[r.below(7)];
+          s.which = which[k];
+          s.value = vals[k];
           t.ops.push_back(s);
         }
       }
